@@ -73,7 +73,7 @@ def run(tier: str) -> int:
     b = families.c01_bounds(tier, lean=True)
     return gc.run_model_check(
         C07(), specs(tier), tier, "exploration",
-        bounds=[{"top": [{"n": n, "modifiers": list(m), "trivia": list(t)} for n, m, t in b["top"]], "contexts": [{"hole_size": h, "trivia": list(t)} for h, t in b["ctx"]], "max_inputs_per_rule": b["max_inputs"]}],
+        bounds=[{"top": [{"n": n, "modifiers": list(m), "trivia": list(t)} for n, m, t in b["top"]], "contexts": [{"hole_size": h, "trivia": list(t)} for h, t in b["ctx"]], "stack_contexts_also_under": b.get("ctx_stack_under", []), "max_inputs_per_rule": b["max_inputs"]}],
         rule=families.c01_rule_text() + families.SKIP_RULE_TEXT + families.META_RULE_TEXT + families.BUILTIN_RULE_TEXT + "; plus the zero-counts family: {0} {,0} {0,0} {0,} {0,1} {0,2} {,1} over seven operands (literal, rule, ANY, sequence, choice, POP, PUSH) in eleven contexts, with and without implicit whitespace, inputs over {a,b,space} up to length 3"
              "; plus one recursive template p = { \"(\" ~ p ~ \")\" | \"a\" } with inputs up to length 5. Oracle: in each of the four modes the only outcomes are Pairs or PestParsingError "
              "(any other exception, or the 20 s watchdog, is a violation) and an immediately repeated call returns an equal observation (tree, or furthest_pos + expected/unexpected sets). "
